@@ -231,6 +231,30 @@ def generate():
                             ya, yb = seg(lines, y)
                             add("swapstmt", x, xa, yb,
                                 text[ya:yb] + text[xb:ya] + text[xa:xb])
+    # schema / upgrade scripts: drop one line (and variants that keep the
+    # statement well-formed by also dropping a trailing comma of the line before)
+    sd = os.path.join(REPO, PKG, "db-schemas")
+    for fn in sorted(os.listdir(sd)):
+        if not fn.endswith(".sql"):
+            continue
+        text = open(os.path.join(sd, fn), encoding="utf-8").read()
+        lines = text.splitlines(True)
+        off = 0
+        for i, l in enumerate(lines):
+            st = l.strip()
+            if st and not st.startswith("--") and st not in ("(", ");", ")"):
+                muts.append({"id": "db-schemas/%s:%d:sqlline:%d" % (fn, i + 1, len(muts)),
+                             "file": "db-schemas/" + fn, "line": i + 1, "op": "sqlline",
+                             "a": off, "b": off + len(l), "new": "", "old": st[:120],
+                             "note": "drop line"})
+                if i > 0 and lines[i - 1].rstrip().endswith(",") and not st.endswith(","):
+                    pa = off - len(lines[i - 1])
+                    prev = lines[i - 1].rstrip()[:-1] + "\n"
+                    muts.append({"id": "db-schemas/%s:%d:sqlline2:%d" % (fn, i + 1, len(muts)),
+                                 "file": "db-schemas/" + fn, "line": i + 1, "op": "sqlline",
+                                 "a": pa, "b": off + len(l), "new": prev, "old": st[:120],
+                                 "note": "drop line and the comma before"})
+            off += len(l)
     only = os.environ.get("MC_OPS")
     if only:
         muts = [m for m in muts if m["op"] in only.split(",")]
@@ -250,7 +274,8 @@ def mutated_text(m):
 def suite_one(m):
     try:
         new = mutated_text(m)
-        compile(new, m["file"], "exec")
+        if m["file"].endswith(".py"):
+            compile(new, m["file"], "exec")
     except SyntaxError:
         return m["id"], "syntax"
     d = tempfile.mkdtemp(prefix="mc_")
